@@ -20,7 +20,7 @@ EXPLANATION = (
     "on every normal path. NOT decided: time stamp == start + elapsed + delays (arithmetic), the monotonicity repair "
     "constants.")
 
-FLOOR = {"S1": 4, "S2": 4, "S3": 3, "S4": 3, "S5": 3, "S6": 5}
+FLOOR = {"S1": 4, "S2": 4, "S3": 3, "S4": 3, "S5": 3, "S6": 6}
 
 
 def s1(ctx, rep):
@@ -242,6 +242,30 @@ def s6(ctx, rep):
     rep.put(ok, "S6", "agreement", "SimulatorBackend._advance_by_outside_time charges the real time since the last exit mark", a, None, "")
 
 
+def s7(ctx, rep):
+    """a trial completes after its LAST result: the completion time derives from a running maximum over all result times"""
+    from .common import broken_accumulators
+    from ..engine import flows_into
+    P = ctx.P
+    f = P.method("SimulatorBackend", "_process_start_event")
+    push = [x for x in walk_shallow(f.node) if isinstance(x, ast.Call) and fn_name(x) == "push" and x.args
+            and any(isinstance(y, ast.Call) and fn_name(y) == "CompleteEvent" for y in ast.walk(x)) or
+            (isinstance(x, ast.Call) and fn_name(x) == "push" and x.args and flows_into(f, x.args[0], lambda y: isinstance(y, ast.Call) and fn_name(y) == "CompleteEvent"))]
+    if len(push) != 1:
+        raise AnchorError("_process_start_event: push(CompleteEvent) not found")
+    et = kwarg(push[0], "event_time", 1)
+    acc = [st for lp in walk_shallow(f.node) if isinstance(lp, ast.For) for st in walk_shallow(ast.Module(body=lp.body, type_ignores=[]))
+           if isinstance(st, ast.Assign) and isinstance(st.value, ast.Call) and fn_name(st.value) == "max" and isinstance(st.targets[0], ast.Name)
+           and any(isinstance(y, ast.Name) and y.id == st.targets[0].id for a in st.value.args for y in ast.walk(a))]
+    ok = et is not None and len(acc) >= 1 and any(flows_into(f, et, lambda y, v=a_.targets[0].id: isinstance(y, ast.Name) and y.id == v) for a_ in acc)
+    bad = broken_accumulators(ctx, f)
+    rep.put(ok and not bad, "S6", "agreement", "SimulatorBackend._process_start_event: completion time = running maximum of all result times (+ delay)", f,
+            bad[0][0] if bad else push[0], "v = max(v, t) inside the loop over results; CompleteEvent pushed at v + delay",
+            (f"`{bad[0][1]}` does not include its own previous value: " if bad else "") + "the completion is scheduled after the last-LISTED result, "
+            "not the latest one - a trial whose final report has a smaller elapsed time than an earlier one completes early and the later-stamped "
+            "result is never delivered")
+
+
 def run(ctx, rep, tier="quick"):
     s1(ctx, rep)
     s2(ctx, rep)
@@ -254,3 +278,4 @@ def run(ctx, rep, tier="quick"):
         i.clause = "S5"
         rep.items.append(i)
     s6(ctx, rep)
+    s7(ctx, rep)
